@@ -31,6 +31,28 @@ def units(tier):
     u = breeze_units(PROP, "C16")
     u.update(contract_units(PROP, which=("sign", "setlen")))
 
+    def frame(ip, ctx):
+        """control_breeze_device relies on build_command being a function of its arguments and the remote's IR data: it must
+        assign nothing on the remote (no cache, no remembered state) and read no clock -- otherwise a second call with the same
+        merged settings could send a stale command"""
+        from .c15 import make_remote
+        from .breeze import E
+        State, Mode, Fan, Swing = E("DeviceState"), E("ThermostatMode"), E("ThermostatFanLevel"), E("ThermostatSwing")
+        import itertools
+        shapes = list(itertools.product([False, True], list(State), list(Mode), [None] + list(State)))
+        toggle, state, mode, prev = shapes[ctx.fork(len(shapes))]
+        remote, W, mint, maxt = make_remote(ip, ctx, toggle, list(Mode))
+        from .common import sym_int, func
+        t = sym_int(ctx, "target", -1000, 1000)
+        ip.no_contract_for = {"aioswitcher.api.remotes.SwitcherBreezeRemote.build_command"}
+        from pyvc.engine import outcome_of
+        ob = outcome_of(lambda: ip.call_function(func("aioswitcher.api.remotes.SwitcherBreezeRemote.build_command"),
+                                                 [remote, state, mode, t, Fan.LOW, Swing.ON, prev], {}, ctx))
+        base = f"{PROP}/build_command_frame/{'toggle' if toggle else 'plain'}_{state.name}_{mode.name}_prev{prev.name if prev else 'None'}"
+        return [Obligation(base + "/assigns_nothing_reads_no_clock", ctx, not ctx.ghost.heap_writes and not ctx.ghost.module_writes and
+                           not ctx.ghost.clock_reads, note=str([(repr(o), a) for o, a in ctx.ghost.heap_writes][:2]))]
+    u["build_command_frame"] = Unit("build_command_frame", PROP, frame, functions=["aioswitcher.api.remotes.SwitcherBreezeRemote.build_command"])
+
     def failures(ip, ctx):
         # empty login reply / empty or unparsable state reply: RuntimeError, no further frame
         shapes = [s for s in request_shapes() if s[0] is not None and not s[4] and not s[5]][:6]
@@ -69,8 +91,9 @@ def replay_case(o):
 
 
 def search_cases(o, seed):
-    return [{"prop": PROP, "kind": "sweep", "inputs": {"seed": seed, "n": 1500}}]
+    return [{"prop": PROP, "kind": "sweep", "inputs": {"seed": seed, "n": 1500}}, {"prop": PROP, "kind": "repeats", "inputs": {"seed": seed, "n": 150}}]
 
 
 def native_cases(tier, seed):
-    return [{"prop": PROP, "kind": "sweep", "inputs": {"seed": seed, "n": 1500 if tier == "quick" else 40000}}]
+    return [{"prop": PROP, "kind": "sweep", "inputs": {"seed": seed, "n": 1500 if tier == "quick" else 40000}},
+            {"prop": PROP, "kind": "repeats", "inputs": {"seed": seed, "n": 150 if tier == "quick" else 5000}}]
